@@ -103,11 +103,12 @@ def load(pkgname, env, block=2):
         ast.fix_missing_locations(tree)
         rewrites.extend((m.__file__, ln, v) for ln, v in rw.rewrites)
         code = compile(tree, m.__file__, 'exec')
-        m.__dict__['_SYMX_BLOCK'] = block
+        m.__dict__['_SYMX_BLOCK'] = block.get(_leaf(mod), block.get(
+            '*', 2)) if isinstance(block, dict) else block
         exec(code, m.__dict__)
         # rebind imported names: env['*'] for every module, env[<leaf module
         # name>] for one module only
-        leaf = mod.split('.')[-1] if mod else '__init__'
+        leaf = _leaf(mod)
         for scope in ('*', leaf):
             for name, obj in env.get(scope, {}).items():
                 if name in m.__dict__ and not _defined_here(m, name):
@@ -118,10 +119,17 @@ def load(pkgname, env, block=2):
             setattr(sys.modules[pkgname + '.' + parent], leaf, m)
         elif mod:
             setattr(sys.modules[pkgname], mod, m)
-    short = {k.split('.')[-1] if k != '__init__' else k: v
-             for k, v in mods.items()}
+    short = {_leaf(k) if k != '__init__' else k: v for k, v in mods.items()}
     short['bounds'] = mods['bounds']
     return SymPackage(pkgname, short, rewrites, files)
+
+
+def _leaf(mod):
+    if not mod:
+        return '__init__'
+    if mod == 'bounds.neural':
+        return 'neural_bound'
+    return mod.split('.')[-1]
 
 
 def _defined_here(m, name):
